@@ -20,3 +20,34 @@ package metadata
 //@   ensures forall a int, b int :: 0 <= a && a < b && b < len(ops) ==> !mdOpLess(ops[b], ops[a])
 //@   ensures mdNonNil(ops)
 //@   modifies elems(ops)
+
+// ---- C19: creating the metadata writes nothing but the order of the model's two operation lists (they are sorted
+// into chronological order in place) ----
+// options only set fields of the Metadata value being built (assumed)
+//@ func New
+//@   trusted
+//@   ensures result != nil && fresh(result)
+//@ func WithIncludePublishedOperations
+//@   trusted
+//@ func WithIncludeUnpublishedOperations
+//@   trusted
+//
+//@ func getPublishedOperations
+//@   requires mdNonNil(ops)
+//@   loop 1
+//@     invariant mdNonNil(ops) && framed()
+//@   modifies elems(ops)
+//@ func getUnpublishedOperations
+//@   requires mdNonNil(ops)
+//@   loop 1
+//@     invariant mdNonNil(ops) && framed() && len(unpublishedOps) == len(ops)
+//@   modifies elems(ops)
+//
+//@ func (*Metadata).CreateDocumentMetadata
+//@   requires t != nil
+//@   requires rm != nil ==> mdNonNil(rm.PublishedOperations) && mdNonNil(rm.UnpublishedOperations)
+//@   requires info != nil && "published" in info ==> isType(info["published"], "bool")
+//@   requires rm != nil ==> len(rm.PublishedOperations) == 0 || len(rm.UnpublishedOperations) == 0 || arrOf(rm.PublishedOperations) != arrOf(rm.UnpublishedOperations)
+//@   results md, err
+//@   ensures err == nil ==> md != nil && fresh(md) && rm != nil && rm.Doc != nil && info != nil
+//@   modifies elems(rm.PublishedOperations), elems(rm.UnpublishedOperations)
